@@ -106,15 +106,15 @@ macro "item_cases " it:ident " then " tac:tactic : tactic => `(tactic|
       cases $it:ident with
       | x rc rq rs org =>
         cases rq <;> cases rs <;> cases org <;>
-          (simp [handleItem, handleX, pre, stAfter, rqErr, rqSkip, countP, Item.rq, Item.rs, Item.hij,
+          (simp [handleItem, handleX, pre, stAfter, rqErr, rqSkip, rsErr, countP, Item.rq, Item.rs, Item.hij,
             isRead, isReqmod, isResmod, isUpstream, isWrite, isWarnReq, isWarnRes, isWarnRt, isHijacked, *] <;> $tac)
       | connectMitm tls rq rs =>
         cases rq <;> cases rs <;> cases tls <;>
-          (simp [handleItem, handleMitm, pre, stAfter, rqErr, rqSkip, countP, Item.rq, Item.rs, Item.hij,
+          (simp [handleItem, handleMitm, pre, stAfter, rqErr, rqSkip, rsErr, countP, Item.rq, Item.rs, Item.hij,
             isRead, isReqmod, isResmod, isUpstream, isWrite, isWarnReq, isWarnRes, isWarnRt, isHijacked, *] <;> $tac)
       | connectBlind ok rq rs =>
         cases rq <;> cases rs <;> cases ok <;>
-          (simp [handleItem, handleBlind, pre, stAfter, rqErr, rqSkip, countP, Item.rq, Item.rs, Item.hij,
+          (simp [handleItem, handleBlind, pre, stAfter, rqErr, rqSkip, rsErr, countP, Item.rq, Item.rs, Item.hij,
             isRead, isReqmod, isResmod, isUpstream, isWrite, isWarnReq, isWarnRes, isWarnRt, isHijacked, *] <;> $tac))
 
 macro "item_cases " it:ident : tactic => `(tactic| item_cases $it then skip)
@@ -163,7 +163,7 @@ theorem own_hijacked : countP (isHijacked i) (handleItem sd s i c it).1 = if it.
 theorem own_warnReq : countP (isWarnReq i) (handleItem sd s i c it).1 = if rqErr it.rq then 1 else 0 := by
   item_cases it
 theorem own_warnRes : countP (isWarnRes i) (handleItem sd s i c it).1 =
-    if it.rq ≠ .hijack ∧ it.rs = .err then 1 else 0 := by
+    if it.rq ≠ .hijack ∧ rsErr it.rs = true then 1 else 0 := by
   item_cases it
 end locals
 
